@@ -21,8 +21,8 @@ DEFAULT_CAP = None  # tensora's own 1024*1024
 PARAMS = {
     "quick": dict(formats_per_assignment=4, tries=60, inputs=6, caps=[1, 2], c_fraction=4, wide_inputs=24,
                   gen_kernels=6, random_assignments=40, random_kernels=40),
-    "thorough": dict(formats_per_assignment=24, tries=400, inputs=16, caps=[1, 2, 3, DEFAULT_CAP], c_fraction=1,
-                     wide_inputs=80, gen_kernels=40, random_assignments=600, random_kernels=600),
+    "thorough": dict(formats_per_assignment=12, tries=300, inputs=10, caps=[1, 2, 3, DEFAULT_CAP], c_fraction=2,
+                     wide_inputs=40, gen_kernels=40, random_assignments=300, random_kernels=250),
 }
 
 
@@ -202,6 +202,9 @@ def _run(t: str, s: int) -> Result:
             caps = P["caps"] if has_sparse_output(probe) else [2]
             if t == "quick" and len(caps) > 1:
                 caps = [caps[(got + len(kernel_list)) % len(caps)]] if got % 2 else caps[:1]
+            elif len(caps) > 2:
+                # thorough: capacity 1 always, plus one of the others in rotation
+                caps = [caps[0], caps[1 + (got + len(kernel_list)) % (len(caps) - 1)]]
             for cap in caps:
                 k = kernels.compile_kernel(text, fm, ["evaluate"], programs, cap=cap)
                 kernel_list.append((k, cap, group))
